@@ -10,7 +10,8 @@ import DclabModel.DriveUtil
     export <new> <ref> <feats> <c2r|x> <mask|x>   export.hdf5(basins=True) of a view of <ref>
     exportold …                                   the same with the rule before the F08 fix
          → `ok <map|same>;<map|same>…` (maps of the written definitions, upstream first) | `err`
-    defs <id>                                     bookkeeping of the written file (`exportStore`)
+    defs <id> [<k>:<map>|…]                       bookkeeping of the written file (`exportStoreFrom`;
+                                                  optional: map features written by the feature loop)
          → `ok <k>=<map>;same;…` (one entry per definition record, in writing order) | `exhausted`
     copy <new> <src> <feats>                      rtdc_copy(features=<feats>, include_basins=True)
          → `ok <n>` (number of definitions written)
@@ -138,14 +139,15 @@ def handle (d : D) (line : String) : D × String :=
       | some d' => (d', "ok")
       | none => (d, "err")
     | _, _, _, _ => (d, "bad-op")
-  | ["defs", id] =>
-    match id.toNat? with
-    | none => (d, "bad-op")
-    | some id =>
+  | "defs" :: id :: pre =>
+    match id.toNat?, (match pre with | [] => some [] | [p] => parseMaps p | _ => none) with
+    | none, _ => (d, "bad-op")
+    | _, none => (d, "bad-op")
+    | some id, some pre =>
       match lk id d.files with
       | none => (d, "err")
       | some f =>
-        match exportStore f with
+        match exportStoreFrom pre f with
         | none => (d, "exhausted")
         | some s =>
           (d, "ok " ++ joinWith ";" (s.defs.map fun df =>
